@@ -390,6 +390,13 @@ func buildIntrinsics() map[string]intrinsicFn {
 		})
 		return nil
 	}
+	// verifAdvanceClock(ns): logical time passes (concrete clock only)
+	m["verif:verifAdvanceClock"] = func(fr *frame, a []value) value {
+		if fr.r.h.concreteClock {
+			fr.r.nowC += asInt64(a[0])
+		}
+		return nil
+	}
 	m["verif:verifTicks"] = func(fr *frame, a []value) value { return int64(fr.r.ticks) }
 	m["verif:verifReplayFailures"] = func(fr *frame, a []value) value { return []value(nil) }
 
